@@ -1,7 +1,7 @@
 (* CliSafeFix.v - the REPAIRED control flow (fix bits of CliBase.fixed switched on, the baseline of
    CliInit.init_state = library commits dd06ff7..a7a3a60): for EVERY token stream the mirrors of UltraZip and
    Tight never leave an object.  Together with CliSafe.v: an out-of-bounds outcome of the repaired mirror can
-   only originate in TRLE / ZRLE rectangles (where finding C08-F27 is still open, CliOobWitness.w_zrle_cp24). *)
+   only originate in TRLE / ZRLE rectangles; those are closed in CliSafeZ.v (no_oob_repaired). *)
 From LV Require Import Dec.CliBase Dec.CliFbProofs Dec.CliDec Dec.CliDecZ Dec.CliMsg Dec.RefEnc Dec.CliRtBase Dec.CliRtSimple
      Dec.CliCopyProofs Dec.CliSound Dec.CliSafe.
 Require Import ZifyBool.
@@ -496,7 +496,7 @@ Definition DF : Z -> Z -> Z -> Prop := fun _ _ fx =>
   Z.testbit fx 0 = true /\ Z.testbit fx 1 = true /\ Z.testbit fx 2 = true /\ Z.testbit fx 3 = true.
 Definition fixed0123 (s : cst) : Prop := DF (c_w s) (c_h s) (c_fix s).
 
-(* the encodings whose repaired decoders are not covered: TRLE, ZRLE (finding C08-F27 is open there) *)
+(* the encodings whose repaired decoders are not covered by THIS file: TRLE, ZRLE (see CliSafeZ.v) *)
 Definition weak_encs_fixed : list Z := [cE_TRLE; cE_ZRLE; cE_ZYWRLE].
 
 Lemma safeD_then_clean (D : Z -> Z -> Z -> Prop) {A B} (m : M A) (k : A -> M B) :
